@@ -35,6 +35,8 @@ def short(label):
     """`bv::impl BitvectorExtended for Bitvector::bin_op` -> `Bitvector::bin_op`"""
     if label.startswith("lemma:"):
         return label[6:]
+    if label.startswith("fragment "):      # R15: `fragment NAME of ALIAS::-::FN` -> NAME (the wrapper's function name)
+        return label.split()[1]
     body = label.split("::", 1)[1]
     hdr, name = body.rsplit("::", 1)
     hdr = hdr.strip()
@@ -70,7 +72,7 @@ def find_helper(unit, name):
     """a function `name` that extracted code calls but the unit does not list: look for it in the unit's source
     files (free fn, or a method of an impl block the unit already extracts from)."""
     u = A.parse_unit(os.path.join(VERIF, "contracts", unit + ".vc"))
-    own = [e[1].path for e in u.entries if e[0] == "fn"]
+    own = [(getattr(e[1], "frag_of", None) or e[1].path) for e in u.entries if e[0] == "fn"]
     hdrs = {}
     for pth in own:
         a, hdr, _ = A.split_fn_path(pth)
@@ -312,6 +314,9 @@ def main(argv):
                 trusted.add("R9 substitution in %s: `%s` -> `%s`" % (e["fn"], e["pattern"], e["replacement"]))
             if e["rule"] == "assume_entry":
                 trusted.add("assume_entry in %s: %s" % (e["fn"], e["cond"]))
+            if e["rule"] == "R15 fragment":
+                trusted.add("R15 %s: the statement matched by `%s` is verified in isolation as fn(%s); when and with which values %s executes it is not part of the claim"
+                            % (e["fn"], e["pattern"], e["params"], e["of"]))
         for inc in info["includes"]:
             src = open(os.path.join(VERIF, inc)).read()
             n_ext = len(re.findall(r"external_body", src))
